@@ -33,14 +33,27 @@ def Ty.plainL : List Ty → Bool
   | t :: ts => Ty.plain t && Ty.plainL ts
 end
 
+/-- the refinement struct the type dictates (`cty/unknown_refinement.go`:
+`refinementString` for strings, `refinementNumber` for numbers,
+`refinementCollection` for lists, sets and maps, `refinementNullable` otherwise) -/
+def Rfn.fits : Ty → Rfn → Bool
+  | _, .unref => true
+  | _, .nullable _ => true
+  | .string, .str _ _ => true
+  | .number, .num _ _ _ => true
+  | .list _, .coll _ _ _ => true
+  | .set _, .coll _ _ _ => true
+  | .map _, .coll _ _ _ => true
+  | _, _ => false
+
 mutual
 /-- the payload is one the type can have (`Value` well-formedness, shape part):
 the Go kind the type dictates at every level, tuple lengths and object keys as
 in the type, map keys strictly ascending, at most one marker layer per node with
-a non-empty mark set; `null` and unknown anywhere -/
+a non-empty mark set; `null` and unknown (with the refinement kind of the type) anywhere -/
 def Payload.wf : Ty → Payload → Bool
   | _, .null => true
-  | _, .unk _ => true
+  | t, .unk r => r.fits t
   | t, .marked ms r => !ms.isEmpty && !r.isMarked && Payload.wf t r
   | t, .b _ => t.isBool
   | t, .n _ => t.isNumber
